@@ -25,7 +25,8 @@ def gen_graph(rng, tdir):
     g = G()
     n = rng.randint(1, 8)
     names = []
-    pool = ['a.txt', 'b.md', 'c.txt', 'sub/d.txt', 'sub/e.md', 'sub/deep/f.txt', 'g h.txt', 'w.html', 'w.tex', 'w.fodt', 'w.txt', 'sub/x.html', 'sub/x.txt', 'z.txt']
+    pool = ['a.txt', 'b.md', 'c.txt', 'sub/d.txt', 'sub/e.md', 'sub/deep/f.txt', 'g h.txt', 'w.html', 'w.tex', 'w.fodt', 'w.txt', 'sub/x.html', 'sub/x.txt', 'z.txt',
+            'TOC-notes.txt', 'TOCextra.txt', 'sub/TOC.txt', 'toc.txt', 'TOC.md']          # only the exact marker {{TOC}} is not a file
     names = ['top.txt'] + rng.sample(pool, n - 1)
     kind = rng.choice(['tree', 'dag', 'dag', 'chain', 'selfloop', 'cycle', 'mixed'])
     g.kind = kind
@@ -63,7 +64,7 @@ def gen_graph(rng, tdir):
             parts.append(('M', t))
             parts.append(w())
         if rng.random() < 0.3:
-            parts.append(('RAW', rng.choice(['{{missing.txt}}', '{{TOC}}', '{{' + 'n' * rng.choice([997, 998, 999, 1000, 1001, 1200]) + '}}', '{{unterminated', '}} {{', '{{sub/nope.*}}',
+            parts.append(('RAW', rng.choice(['{{missing.txt}}', '{{TOC}}', '{{TOCmissing.txt}}', '{{TOC:2-3}}', '{{' + 'n' * rng.choice([997, 998, 999, 1000, 1001, 1200]) + '}}', '{{unterminated', '}} {{', '{{sub/nope.*}}',
                                            '{{ ' + 'stray opener followed by a long run of text ' * rng.choice([20, 23, 24, 30])])))
             parts.append(w())
             if rng.random() < 0.5 and len(parts) > 3:
